@@ -119,8 +119,15 @@ def run_case(case):
            'rows': [len(r['rows']) for r in res]}
     cov['config']['%s/%s/%s%s' % (fmt, kind, cset, '/filehash' if filehash else '')] = 1
 
-    def dump(out):
-        steps = [lab.source(r['name'], r['fields'], r['rows']) for r in res]
+    # history of the measured dump: fresh / written over an earlier dump of other data / a re-dump of a loaded dump
+    history = 'fresh'
+    if fmt in ('csv', 'json'):
+        history = rng.choice(['fresh', 'fresh', 'same_target', 'redump', 'redump_twice'])
+    cfg['history'] = history
+    cov['config']['history/%s/%s%s' % (history, kind, '/filehash' if filehash else '')] = 1
+
+    def dump(out, sources=None):
+        steps = sources or [lab.source(r['name'], r['fields'], r['rows']) for r in res]
         steps.append(d.update_package(name='pkg'))
         steps.append(d.dump_to_path(out, **copy.deepcopy(opts)) if kind == 'path'
                      else d.dump_to_zip(out, **copy.deepcopy(opts)))
@@ -131,10 +138,38 @@ def run_case(case):
         except Exception as e:
             return None, None, e
 
+    def dump_path(out, sources=None):
+        steps = sources or [lab.source(r['name'], r['fields'], r['rows']) for r in res]
+        steps.append(d.dump_to_path(out, **copy.deepcopy(opts)))
+        try:
+            with boot.quiet():
+                dp, stats = d.Flow(*steps).process()
+            return dp, stats, None
+        except Exception as e:
+            return None, None, e
+
     def add(kind_, msg, mech, **kw):
         viol.append(dict({'kind': kind_, 'mech': mech, 'msg': '%r: %s' % (cfg, msg), 'config': cfg}, **kw))
     out1, out2 = ('o1', 'o2') if kind == 'path' else ('o1.zip', 'o2.zip')
-    dp, stats, err = dump(out1)
+    if history == 'same_target':
+        # the target already holds a dump of other data (fewer / other rows, same resource names)
+        other = [lab.source(r['name'], r['fields'], [dict(x, id=x['id'] + 1000) for x in r['rows'][:len(r['rows']) // 2]] or
+                            [dict(r['rows'][0], id=-5)] if r['rows'] else [])
+                 for r in res]
+        dump(out1, other)
+    sources = None
+    if history.startswith('redump'):
+        chain = ['h0', 'h1'] if history == 'redump_twice' else ['h0']
+        prev = None
+        for h in chain:
+            src_ = None if prev is None else [d.load(prev + '/datapackage.json')]
+            _, _, e_ = (dump_path(h, src_))
+            if e_ is not None:
+                add('dump_failed', 'history dump failed: %s: %s' % (type(e_).__name__, str(e_)[:300]), 'dump_failed/history')
+                return dict(nontrivial=False, violations=viol, cov=cov, counters=counters)
+            prev = h
+        sources = [d.load(prev + '/datapackage.json')]
+    dp, stats, err = dump(out1, sources)
     if err is not None:
         add('dump_failed', 'dump failed: %s: %s' % (type(err).__name__, str(err)[:300]), 'dump_failed/' + cset)
         return dict(nontrivial=False, violations=viol, cov=cov, counters=counters)
@@ -216,7 +251,7 @@ def run_case(case):
     if case.get('pause') and fmt in ('xlsx', 'excel'):
         import time
         time.sleep(2.1)
-    dp2, stats2, err2 = dump(out2)
+    dp2, stats2, err2 = dump(out2, [d.load(prev + '/datapackage.json')] if history.startswith('redump') else None)
     if err2 is not None:
         add('dump_failed', 'second dump failed: %s' % err2, 'dump_failed/second')
     else:
